@@ -245,7 +245,9 @@ func (env *Env) elab(x SExpr) Term {
 	case *SIndex:
 		a := env.elab(x.X)
 		i := env.elab(x.I)
-		env.wantInt(i, x.I)
+		if _, isMap := typeUnder[*types.Map](a.T); !isMap {
+			env.wantInt(i, x.I)
+		}
 		return env.indexTerm(a, i, x)
 	case *SSlice:
 		a := env.elab(x.X)
@@ -831,6 +833,9 @@ func (vc *FnVC) bitFun(op, a, b string) string {
 		case "or":
 			vc.declAxiom(name+"$ax","(assert (forall ((x Int) (y Int)) (! (=> (and (>= x 0) (>= y 0)) (and (>= (bitor x y) x) (>= (bitor x y) y) (<= (bitor x y) (+ x y)) (= (bitor x y) (bitor y x)))) :pattern ((bitor x y)))))")
 		case "xor":
+			// x ^ t == y ^ t  implies  x == y
+			vc.declAxiom(name+"$inj", "(assert (forall ((x Int) (y Int) (t Int)) (! (=> (= (bitxor x t) (bitxor y t)) (= x y)) :pattern ((bitxor x t) (bitxor y t)))))")
+			vc.declAxiom(name+"$inj2", "(assert (forall ((x Int) (y Int) (t Int)) (! (=> (= (bitxor t x) (bitxor t y)) (= x y)) :pattern ((bitxor t x) (bitxor t y)))))")
 			vc.declAxiom(name+"$ax","(assert (forall ((x Int) (y Int)) (! (=> (and (>= x 0) (>= y 0)) (and (>= (bitxor x y) 0) (<= (bitxor x y) (+ x y)) (= (bitxor x y) (bitxor y x)) (= (= (bitxor x y) 0) (= x y)))) :pattern ((bitxor x y)))))")
 		}
 	}
@@ -934,6 +939,15 @@ func (env *Env) elabCall(x *SCall) Term {
 		}
 		vc.decl("allocated0", "(declare-fun allocated0 (Int) Bool)")
 		return boolTerm(fmt.Sprintf("(and (not (= %s 0)) (not (allocated0 %s)))", r, r))
+	case "haskey":
+		// haskey(m, k): key k is present in map m
+		a, k := env.elab(x.Args[0]), env.elab(x.Args[1])
+		mt, ok := typeUnder[*types.Map](a.T)
+		if !ok {
+			efail("haskey wants a map")
+		}
+		_, _, hC, hS := vc.mapComps(mt.Key(), mt.Elem())
+		return boolTerm(fmt.Sprintf("(select (select %s %s) %s)", env.curHeap()(hC, hS), a.S, k.S))
 	case "bevalue":
 		// bevalue(s): big-endian value of byte slice s (abstract; see the SetBytes model)
 		a := env.elab(x.Args[0])
